@@ -90,6 +90,13 @@ func wantF12() bool {
 	return false
 }
 
+func repoDir() string {
+	if r := os.Getenv("VERIF_REPO"); r != "" {
+		return r
+	}
+	return "/repo"
+}
+
 func corpus() []core.Case {
 	cases := []core.Case{
 		{Tag: "corpus", Lines: []string{"@ C01 ring 0 0 0 T u1", "step 0"}},
@@ -128,6 +135,13 @@ func corpus() []core.Case {
 	tier := tierFromArgs()
 	cfgs := quickDFS
 	bound, maxDepth, maxSched := 3, 60, 12000
+	// On the blessed tree a quick run enumerates only the first schedules of every DFS
+	// configuration (the machine may be loaded; the budget is 60 s); as soon as a modelled
+	// function of ringz/sync.go differs from anchors.lock.json the full quick enumeration
+	// runs (the core escalates the rest of the run in the same situation).
+	if tier != "thorough" && len(core.Drift(core.VerifDir(), repoDir(), "C01")) == 0 {
+		maxSched = 800
+	}
 	if tier == "thorough" {
 		cfgs = append(append([]header{}, quickDFS...), thoroughDFS...)
 		maxSched = 50000
@@ -231,7 +245,7 @@ const raceMix = "go build -race; three shared rings NewSync[[2]int](2|3|4), on E
 var raceExtra = core.Extra{
 	Name: "race-detector stress of the unmodified ringz package (real scheduler), every method concurrently",
 	Run: func(ctx *core.Ctx) (int, string, []core.ExtraFailure) {
-		ms := 2500
+		ms := 2000
 		if ctx.Tier == "thorough" {
 			ms = 60000
 		}
